@@ -107,3 +107,17 @@ package js_parser
 // arrow to a function expression) must be gated on the target supporting arrows. parseArrowBody only builds the
 // node for an arrow written in the input (lowered later by the visit pass if needed).
 //@ gate parser-arrow C14: feature=compat.Arrow ; site=alloc EArrow ; in=js_parser ; except=(*parser).parseArrowBody:builds the node for an arrow written in the input (the visit pass lowers it to a function when arrows are unsupported)
+
+// C07: input source maps are re-sorted by generated position with sort.Stable(mappingArray). sort.Stable keeps
+// the written order of mappings with the same generated position only if Less is a STRICT order (sort.Interface:
+// "if both Less(i, j) and Less(j, i) are false, then the elements are considered equal"); with a reflexive Less
+// equal elements are swapped and which duplicate SourceMap.Find reports is no longer the one written last.
+//@ lemma mappingArray_Less_asymmetric C07 C08 replay=mapping_sort_duplicates: forall a mappingArray, i int, j int ::
+//@     0 <= i && i < len(a) && 0 <= j && j < len(a) ==> !(a.Less(i, j) && a.Less(j, i))
+//@ lemma mappingArray_Less_transitive C07 C08: forall a mappingArray, i int, j int, k int ::
+//@     0 <= i && i < len(a) && 0 <= j && j < len(a) && 0 <= k && k < len(a) && a.Less(i, j) && a.Less(j, k) ==> a.Less(i, k)
+// Logical assignment (||= &&= ??=) and exponentiation (** **=) operators: every EBinary the compiler builds with such an
+// operator (the TypeScript namespace closure uses ||= under minify) must be gated; parseSuffix builds the node for an
+// operator written in the input (lowered later by the visit pass).
+//@ gate generated-logical-assign C14: feature=compat.LogicalAssignment ; site=store EBinary.Op const js_ast.BinOpLogicalOrAssign,js_ast.BinOpLogicalAndAssign,js_ast.BinOpNullishCoalescingAssign ; in=js_parser,js_ast,linker ; except=(*parser).parseSuffix:builds the node for an operator written in the input (the visit pass lowers it when unsupported)
+//@ gate generated-exponent C14: feature=compat.ExponentOperator ; site=store EBinary.Op const js_ast.BinOpPow,js_ast.BinOpPowAssign ; in=js_parser,js_ast,linker ; except=(*parser).parseSuffix:builds the node for an operator written in the input (the visit pass lowers it when unsupported)
